@@ -75,8 +75,22 @@ def e2e_suite(ctx):
     bal = dict(streams=[dict(zone="Z", name="h", t_supply=100.0, t_target=50.0, heat_flow=50.0, dt_cont=0.0, htc=1.0),
                         dict(zone="Z", name="c", t_supply=50.0, t_target=100.0, heat_flow=50.0, dt_cont=0.0, htc=1.0)], utilities=[])
     probs.append((bal, dict(zones=1, shapes=["balanced_everywhere"], regime="none")))          # D18 witness end to end
-    for _ in range(n):
-        probs.append(pc.gen_problem(ctx.rng, nmax=6))
+    for i in range(n):
+        prob, m = pc.gen_problem(ctx.rng, nmax=6)
+        if i % 4 == 0:
+            # sub-ambient variant: translate everything so that one shifted stream end point (a pinch candidate) is exactly 0.0
+            s0 = ctx.rng.choice(prob["streams"])
+            cold = s0["t_supply"] <= s0["t_target"]
+            e = ctx.rng.choice([s0["t_supply"], s0["t_target"]]) + (s0["dt_cont"] if cold else -s0["dt_cont"])
+            for x in prob["streams"] + prob["utilities"]:
+                x["t_supply"] -= e
+                x["t_target"] -= e
+            m = dict(m, shapes=m["shapes"] + ["zero_level"])
+        probs.append((prob, m))
+    # pinned: a single pinch exactly at T* = 0.0 (cold stream supplied at -5 with dt_cont 5)
+    probs.append((dict(streams=[dict(zone="Z", name="c", t_supply=-5.0, t_target=60.0, heat_flow=130.0, dt_cont=5.0, htc=1.0),
+                                dict(zone="Z", name="h", t_supply=45.0, t_target=-35.0, heat_flow=240.0, dt_cont=5.0, htc=1.0)], utilities=[]),
+                  dict(zones=1, shapes=["zero_level"], regime="none")))
     cf = CaseFile(ctx, "e2e_pinch", HDR, shard=40)
     meta = []
     for prob, m in probs:
